@@ -56,6 +56,74 @@ theorem unpack_pack {f : Fmt} {vs : List Int} {bs : Bytes} (h : pack f vs = .ok 
   · rename_i b hb; cases h; simp [unpack, unpack_pack_items _ _ _ _ hb]
   · cases h
 
+theorem Code.bytes_length (big : Bool) (c : Code) (v : Int) : (c.bytes big v).length = c.size := by
+  cases c <;> cases big <;> simp [Code.bytes, word, Code.size]
+
+theorem packItems_length (big : Bool) : ∀ (cs : List Code) (vs : List Int) (bs : Bytes),
+    packItems big cs vs = some bs → bs.length = (cs.map Code.size).sum := by
+  intro cs
+  induction cs with
+  | nil => intro vs bs h; cases vs <;> simp [packItems] at h; subst h; simp
+  | cons c cs ih =>
+    intro vs bs h
+    cases vs with
+    | nil => simp [packItems] at h
+    | cons v vs =>
+      simp only [packItems] at h
+      split at h
+      · split at h
+        · rename_i r hp
+          cases h
+          simp [Code.bytes_length, ih vs r hp]
+        · cases h
+      · cases h
+
+theorem pack_length {f : Fmt} {vs : List Int} {bs : Bytes} (h : pack f vs = .ok bs) : bs.length = f.size := by
+  unfold pack at h
+  split at h
+  · rename_i b hb; cases h; exact packItems_length _ _ _ _ hb
+  · cases h
+
+theorem packItems_append (big : Bool) : ∀ (c1 : List Code) (v1 : List Int) (c2 : List Code) (v2 : List Int) (bs : Bytes),
+    v1.length = c1.length → packItems big (c1 ++ c2) (v1 ++ v2) = some bs →
+    ∃ b1 b2, bs = b1 ++ b2 ∧ packItems big c1 v1 = some b1 ∧ packItems big c2 v2 = some b2 := by
+  intro c1
+  induction c1 with
+  | nil => intro v1 c2 v2 bs hl h; cases v1 <;> simp at hl; exact ⟨[], bs, by simp, by simp [packItems], by simpa using h⟩
+  | cons c c1 ih =>
+    intro v1 c2 v2 bs hl h
+    cases v1 with
+    | nil => simp at hl
+    | cons v v1 =>
+      simp only [List.cons_append, packItems] at h
+      split at h
+      · rename_i hr
+        split at h
+        · rename_i r hp
+          cases h
+          obtain ⟨b1, b2, rfl, h1, h2⟩ := ih v1 c2 v2 r (by simpa using hl) hp
+          exact ⟨c.bytes big v ++ b1, b2, by simp, by simp [packItems, hr, h1], h2⟩
+        · cases h
+      · cases h
+
+theorem pack_append {big : Bool} {c1 c2 : List Code} {v1 v2 : List Int} {bs : Bytes} (hl : v1.length = c1.length)
+    (h : pack ⟨big, c1 ++ c2⟩ (v1 ++ v2) = .ok bs) :
+    ∃ b1 b2, bs = b1 ++ b2 ∧ pack ⟨big, c1⟩ v1 = .ok b1 ∧ pack ⟨big, c2⟩ v2 = .ok b2 := by
+  unfold pack at h
+  split at h
+  · rename_i b hb
+    cases h
+    obtain ⟨b1, b2, e, h1, h2⟩ := packItems_append big c1 v1 c2 v2 _ hl hb
+    exact ⟨b1, b2, e, by simp [pack, h1], by simp [pack, h2]⟩
+  · cases h
+
+theorem pack_single {big : Bool} {c : Code} {v : Int} {bs : Bytes} (h : pack ⟨big, [c]⟩ [v] = .ok bs) :
+    bs = c.bytes big v ∧ c.inRange v = true := by
+  simp only [pack, packItems] at h
+  by_cases hr : c.inRange v = true
+  · simp [hr] at h; exact ⟨h.symm, hr⟩
+  · simp [hr] at h
+
 /-! ### split / replace -/
 
 theorem splitOn_skip (sep : UInt8) : ∀ (x t : Bytes), sep ∉ x →
@@ -183,10 +251,6 @@ def clash : Bytes → Bytes → Bool
 def allClash (lit : Bytes) : Bytes → Bool
   | [] => true
   | c :: t => clash lit (c :: t) && allClash lit t
-
-def occurs (lit : Bytes) : Bytes → Bool
-  | [] => lit.isPrefixOf []
-  | c :: t => lit.isPrefixOf (c :: t) || occurs lit t
 
 theorem isPrefixOf_clash : ∀ (lit y t : Bytes), clash lit y = true → lit.isPrefixOf (y ++ t) = false := by
   intro lit
